@@ -28,7 +28,7 @@ def make_specs(ctx: Ctx, n):
         if i % 5 == 3:
             m["meta"]["mark_call"] = True
             label += "; decorator called on functions that stay in use"
-        na = rng.choice([3, 8, 16])
+        na = 300 if i == 7 else rng.choice([3, 8, 16])      # one panel with more agents than a byte can index
         int_init = i % 3 == 1
         init = qinit(gen.rand_initial_states(rng, m, na, integer=int_init))
         target = "solve_and_simulate" if i % 2 else "simulate"
